@@ -78,8 +78,262 @@ Definition scalar_ok (k : kind) (v : value) : bool :=
   | _, _ => false
   end.
 
+Definition ver_eqb (a b : ver) : bool := (fst a =? fst b) && (snd a =? snd b).
+Definition vstate_eqb (a b : vstate) : bool :=
+  match a, b with
+  | None, None => true
+  | Some x, Some y => ver_eqb x y
+  | _, _ => false
+  end.
+
+(** a field the hand-written codecs treat positionally: a real tag, no version wrapper *)
+Definition pos_field (fd : field) : bool :=
+  negb (f_tag fd =? 0) && negb (f_setver fd) && (match f_range fd with None => true | Some _ => false end).
+
 Section Conf.
   Variable S : schema.
+  Variable OPS : op_table.
+  Variable ATTRS : attr_table.
+  Variable OBJS : obj_table.
+
+  (** ---- conformance to the hand-written codecs, with open recursion: [cty] is [conf_ty]
+      one fuel unit down *)
+  Section ConfCustoms.
+    Variable cty : vstate -> ty -> Z -> value -> option vstate.
+
+    (** conforms and leaves the version state where it was (the hand-written decoders hand
+        the same state to every element and return it) *)
+    Definition keeps (st : vstate) (t : ty) (tag : Z) (v : value) : bool :=
+      match cty st t tag v with Some s => vstate_eqb s st | None => false end.
+
+    Definition shaped_trees (l : list value) : bool :=
+      match trees_of l with
+      | Some is => forallb tree_shaped is && forallb (fun k => negb (itag k =? 0)) is
+      | None => false
+      end.
+
+    (** an operation payload held in the OperationPayload interface: a pointer to the type
+        registered for (operation, direction), or an UnknownPayload carrying the operation *)
+    Definition conf_payload (st : vstate) (side : bool) (op tag : Z) (payload : value) : bool :=
+      match payload with
+      | VIface (TPtr (TNamed n)) (VPtr w) =>
+        match lookup_op OPS op with
+        | Some (rq, rs) => String.eqb n (if side then rs else rq) && negb (multi_enc n) && keeps st (TNamed n) tag w
+        | None =>
+          String.eqb n "kmip.UnknownPayload" &&
+          match find_tdef S "kmip.UnknownPayload", w with
+          | Some d', VStruct n' [VInt op'; VList l] =>
+            t_custom_enc d' && String.eqb n' "kmip.UnknownPayload" && (op' =? op) && shaped_trees l
+          | _, _ => false
+          end
+        end
+      | _ => false
+      end.
+
+    (** RequestBatchItem *)
+    Definition conf_request_item (st : vstate) (d : tdef) (tag : Z) (fs : list value) : option vstate :=
+      match fs with
+      | [VInt op; VStr id; payload; ext] =>
+        if t_custom_enc d &&
+           ty_eqb (fty d 0) (TScalar (KEnum (ftag d 0))) && ty_eqb (fty d 1) (TScalar KBytes) &&
+           (match fty d 2 with TIface _ => true | _ => false end) &&
+           (match fty d 3 with TPtr _ => true | _ => false end) &&
+           negb (ftag d 0 =? 0) && negb (ftag d 1 =? 0) && negb (ftag d 2 =? 0) && negb (ftag d 3 =? 0) &&
+           negb (ftag d 1 =? ftag d 2) &&
+           conf_payload st false op (ftag d 2) payload &&
+           keeps st (fty d 3) (ftag d 3) ext
+        then Some st else None
+      | _ => None
+      end.
+
+    (** all tags real and pairwise distinct *)
+    Fixpoint tags_distinct (l : list Z) : bool :=
+      match l with
+      | [] => true
+      | x :: r => negb (x =? 0) && forallb (fun y => negb (y =? x)) r && tags_distinct r
+      end.
+
+    (** ResponseBatchItem: always written under TagBatchItem *)
+    Definition conf_response_item (st : vstate) (d : tdef) (tag : Z) (fs : list value) : option vstate :=
+      match fs with
+      | [VInt op; VStr id; VInt status; VInt reason; VStr msg; VStr acv; payload; ext] =>
+        if (tag =? TAG_BATCH_ITEM) && t_custom_enc d &&
+           (match fty d 6 with TIface _ => true | _ => false end) &&
+           ty_eqb (fty d 0) (TScalar (KEnum (ftag d 0))) && ty_eqb (fty d 1) (TScalar KBytes) &&
+           ty_eqb (fty d 2) (TScalar (KEnum (ftag d 2))) && ty_eqb (fty d 3) (TScalar (KEnum (ftag d 3))) &&
+           ty_eqb (fty d 4) (TScalar KString) && ty_eqb (fty d 5) (TScalar KBytes) &&
+           (match fty d 7 with TPtr _ => true | _ => false end) &&
+           tags_distinct [ftag d 0; ftag d 1; ftag d 2; ftag d 3; ftag d 4; ftag d 5; ftag d 6; ftag d 7] &&
+           (* a reason of 0 is written only with a failed status *)
+           (match payload with
+            | VNil => true
+            | _ => (0 <? op) && conf_payload st true op (ftag d 6) payload
+            end) &&
+           keeps st (fty d 7) (ftag d 7) ext
+        then Some st else None
+      | _ => None
+      end.
+
+    (** Attribute: reflective encoder, hand-written decoder choosing the value type by name *)
+    Definition conf_attribute (st : vstate) (d : tdef) (tag : Z) (fs : list value) : option vstate :=
+      match t_fields d, fs with
+      | [f0; f1; f2], [VStr name; idx; VIface dyn w] =>
+        if negb (t_custom_enc d) &&
+           pos_field f0 && pos_field f1 && pos_field f2 && negb (f_omit f0) && negb (f_omit f1) && negb (f_omit f2) &&
+           ty_eqb (f_ty f0) (TScalar KString) && ty_eqb (f_ty f1) (TPtr (TScalar KInt32)) &&
+           (match f_ty f2 with TIface _ => true | _ => false end) &&
+           negb (f_tag f1 =? f_tag f2) &&
+           (match idx with VNil => true | VPtr (VInt _) => true | _ => false end) &&
+           ty_eqb dyn (attr_ty ATTRS name) && one_item dyn && keeps st dyn (f_tag f2) w
+        then Some st else None
+      | _, _ => None
+      end.
+
+    (** Credential: the credential type selects which alternative of CredentialValue is read *)
+    Definition conf_credential (st : vstate) (d : tdef) (tag : Z) (fs : list value) : option vstate :=
+      match t_fields d, fs, find_tdef S "kmip.CredentialValue" with
+      | [f0; f1], [VInt ct; VStruct n' [a; b; c]], Some cv =>
+        if negb (t_custom_enc d) && pos_field f0 && pos_field f1 && negb (f_omit f0) && negb (f_omit f1) &&
+           (match f_ty f0 with TScalar (KEnum _) => true | _ => false end) &&
+           ty_eqb (f_ty f1) (TNamed "kmip.CredentialValue") && String.eqb n' "kmip.CredentialValue" &&
+           t_custom_enc cv && (List.length (t_fields cv) =? 3)%nat &&
+           forallb (fun g => match f_ty g with TPtr _ => true | _ => false end) (t_fields cv) &&
+           (if ct =? 1 then keeps st (fty cv 0) (f_tag f1) a && is_zero b && is_zero c
+            else if ct =? 2 then is_zero a && keeps st (fty cv 1) (f_tag f1) b && is_zero c
+            else if ct =? 3 then is_zero a && is_zero b && keeps st (fty cv 2) (f_tag f1) c
+            else false) &&
+           (match a, b, c with (VNil | VPtr _), (VNil | VPtr _), (VNil | VPtr _) => true | _, _, _ => false end)
+        then Some st else None
+      | _, _, _ => None
+      end.
+
+    (** the alternatives of KeyMaterial: exactly the slot the key format designates may be set *)
+    Fixpoint conf_slots (st : vstate) (km : tdef) (tag : Z) (k : nat) (i : nat) (slots : list value) : bool :=
+      match slots with
+      | [] => true
+      | x :: r =>
+        (if Nat.eqb i k then keeps st (fty km i) tag x else match x with VNil => true | _ => false end) &&
+        conf_slots st km tag k (Datatypes.S i) r
+      end.
+
+    (** KeyBlock with KeyValue / PlainKeyValue / KeyMaterial *)
+    Definition conf_key_value (st : vstate) (fmtv : Z) (tag : Z) (kv : value) : bool :=
+      match kv with
+      | VNil => true
+      | VPtr (VStruct n' [VPtr wb; VNil]) =>
+        String.eqb n' "kmip.KeyValue" && (match wb with VStr (_ :: _) | VEmptyBytes => true | _ => false end)
+      | VPtr (VStruct n' [VNil; VPtr (VStruct n2 [VStruct n3 slots; attrs])]) =>
+        String.eqb n' "kmip.KeyValue" && String.eqb n2 "kmip.PlainKeyValue" && String.eqb n3 "kmip.KeyMaterial" &&
+        match find_tdef S "kmip.PlainKeyValue", find_tdef S "kmip.KeyMaterial", key_slot fmtv with
+        | Some pkv, Some km, Some k =>
+          negb (t_custom_enc pkv) && negb (t_custom_dec pkv) && t_custom_enc km &&
+          (List.length (t_fields pkv) =? 2)%nat && (List.length (t_fields km) =? 8)%nat && (List.length slots =? 8)%nat &&
+          forallb pos_field (t_fields pkv) && forallb (fun g => negb (f_omit g)) (t_fields pkv) &&
+          ty_eqb (fty pkv 0) (TNamed "kmip.KeyMaterial") &&
+          (match fty pkv 1 with TSlice _ => true | _ => false end) &&
+          negb (ftag pkv 0 =? ftag pkv 1) &&
+          forallb (fun g => match f_ty g with TPtr _ => true | _ => false end) (t_fields km) &&
+          conf_slots st km (ftag pkv 0) k 0 slots &&
+          keeps st (fty pkv 1) (ftag pkv 1) attrs
+        | _, _, _ => false
+        end
+      | _ => false
+      end.
+
+    Definition conf_key_block (st : vstate) (d : tdef) (tag : Z) (fs : list value) : option vstate :=
+      match t_fields d, fs, find_tdef S "kmip.KeyValue" with
+      | [f0; f1; f2; f3; f4; f5], [VInt kft; kct; kv; alg; ln; kwd], Some kvd =>
+        if negb (t_custom_enc d) && forallb pos_field (t_fields d) &&
+           negb (f_omit f0) && f_omit f1 && negb (f_omit f2) && f_omit f3 && f_omit f4 && negb (f_omit f5) &&
+           (match f_ty f0 with TScalar (KEnum _) => true | _ => false end) &&
+           (match f_ty f1, f_ty f3, f_ty f4 with TScalar _, TScalar _, TScalar _ => true | _, _, _ => false end) &&
+           ty_eqb (f_ty f2) (TPtr (TNamed "kmip.KeyValue")) &&
+           (match f_ty f5 with TPtr _ => true | _ => false end) &&
+           tags_distinct (map f_tag (t_fields d)) &&
+           t_custom_enc kvd && (List.length (t_fields kvd) =? 2)%nat &&
+           ty_eqb (fty kvd 0) (TPtr (TScalar KBytes)) && ty_eqb (fty kvd 1) (TPtr (TNamed "kmip.PlainKeyValue")) &&
+           keeps st (f_ty f1) (f_tag f1) kct && keeps st (f_ty f3) (f_tag f3) alg && keeps st (f_ty f4) (f_tag f4) ln &&
+           conf_key_value st kft (f_tag f2) kv &&
+           keeps st (f_ty f5) (f_tag f5) kwd
+        then Some st else None
+      | _, _, _ => None
+      end.
+
+    (** a managed object held in the Object interface after its object type *)
+    Definition conf_object (st : vstate) (ot : Z) (obj : value) : bool :=
+      match obj with
+      | VIface (TPtr (TNamed n)) (VPtr w) =>
+        match lookup_obj OBJS ot with
+        | Some n' => String.eqb n n' && negb (multi_enc n) && negb (deftag_of S (TNamed n) =? 0) &&
+                     keeps st (TNamed n) (deftag_of S (TNamed n)) w
+        | None => false
+        end
+      | _ => false
+      end.
+    Definition object_tag (obj : value) : Z :=
+      match obj with VIface dyn _ => deftag_of S dyn | _ => 0 end.
+
+    (** fields written and read one after the other, each required, none looking ahead past
+        a following element with its own tag: [keeps] for each, in order *)
+    Fixpoint conf_required (st : vstate) (fl : list field) (vl : list value) : bool :=
+      match fl, vl with
+      | [], [] => true
+      | fd :: fl', x :: vl' => pos_field fd && negb (f_omit fd) && keeps st (f_ty fd) (f_tag fd) x && conf_required st fl' vl'
+      | _, _ => false
+      end.
+
+    (** Get response / Register request / Export response: required fields, then the object
+        selected by the object type read first *)
+    Definition conf_typed_object (nreq : nat) (st : vstate) (d : tdef) (tag : Z) (fs : list value) : option vstate :=
+      let fl := firstn nreq (t_fields d) in
+      let ofd := nth_field d nreq in
+      match firstn nreq fs, skipn nreq fs with
+      | (VInt ot :: _) as vl, [obj] =>
+        if negb (t_custom_enc d) && (List.length (t_fields d) =? Datatypes.S nreq)%nat &&
+           (f_tag ofd =? 0) && (match f_ty ofd with TIface _ => true | _ => false end) &&
+           (match fl with f0 :: _ => match f_ty f0 with TScalar (KEnum _) => true | _ => false end | [] => false end) &&
+           conf_required st fl vl &&
+           forallb (fun g => negb (f_tag g =? object_tag obj)) fl &&
+           conf_object st ot obj
+        then Some st else None
+      | _, _ => None
+      end.
+
+    (** Import request: optional elements, attributes, then the object whose type the
+        attributes name *)
+    Definition conf_import_request (st : vstate) (d : tdef) (tag : Z) (fs : list value) : option vstate :=
+      match t_fields d, fs with
+      | [f0; f1; f2; f3; f4], [uid; rep; kwt; VList attrs; obj] =>
+        let objtag := match find_tdef S "payloads.GetResponsePayload" with Some g => ftag g 0 | None => 0 end in
+        match import_object_type objtag attrs with
+        | Some ot =>
+          if negb (t_custom_enc d) && pos_field f0 && pos_field f1 && pos_field f2 && pos_field f3 &&
+             negb (f_omit f0) && f_omit f1 && f_omit f2 && negb (f_omit f3) &&
+             (f_tag f4 =? 0) && (match f_ty f4 with TIface _ => true | _ => false end) &&
+             (match f_ty f0, f_ty f1, f_ty f2, f_ty f3 with TScalar _, TScalar _, TScalar _, TSlice _ => true | _, _, _, _ => false end) &&
+             tags_distinct [f_tag f0; f_tag f1; f_tag f2; f_tag f3; object_tag obj] &&
+             keeps st (f_ty f0) (f_tag f0) uid && keeps st (f_ty f1) (f_tag f1) rep &&
+             keeps st (f_ty f2) (f_tag f2) kwt && keeps st (f_ty f3) (f_tag f3) (VList attrs) &&
+             conf_object st ot obj
+          then Some st else None
+        | None => None
+        end
+      | _, _ => None
+      end.
+
+    (** which hand-written codec a type name selects ([None]: not covered).  A codec is listed
+        here once its round-trip lemma is proved (RoundtripCustoms.customs_all); the full list is
+          kmip.ResponseBatchItem  -> conf_response_item       kmip.Credential -> conf_credential
+          kmip.KeyBlock           -> conf_key_block           kmip.Attribute  -> conf_attribute
+          payloads.GetResponsePayload / RegisterRequestPayload -> conf_typed_object 2
+          payloads.ExportResponsePayload -> conf_typed_object 3
+          payloads.ImportRequestPayload  -> conf_import_request *)
+    Definition conf_custom_of (st : vstate) (d : tdef) (tag : Z) (fs : list value) : option vstate :=
+      let _ := (ATTRS, OBJS) in   (* used by codecs not dispatched yet: keeps the signature stable *)
+      let n := t_name d in
+      if String.eqb n "kmip.RequestBatchItem" then conf_request_item st d tag fs
+      else None.
+  End ConfCustoms.
 
   (** conformance; returns the version state after the value, [None] = does not conform *)
   Fixpoint conf_ty (fuel : nat) (st : vstate) (t : ty) (tag : Z) (v : value) {struct fuel} : option vstate :=
@@ -117,6 +371,8 @@ Section Conf.
           | Some d, VStruct n' fs =>
             if String.eqb n n' && negb (t_custom_enc d) && negb (t_custom_dec d) && wf_fields (t_fields d)
             then conf_fields f st (t_fields d) fs
+            else if String.eqb n n' && t_custom_dec d
+            then conf_custom_of (conf_ty f) st d tag fs
             else None
           | _, _ => None
           end
